@@ -223,7 +223,9 @@ pub fn explain(type_name: &str, d: &Diff, done: &oracle::Done) -> Option<&'stati
     // the stand-alone table.
     if d.kind == DiffKind::ArrayLonger {
         let last = d.path.rsplit('.').next().unwrap_or("");
-        let embedded = d.path.matches('.').count() > 1;
+        // the array's table must sit below the root: count the field names on
+        // the path, ignoring enum variant names and offset-marker `obj`
+        let embedded = d.path.split('.').filter(|c| !c.is_empty() && !transparent_key(c.trim_end_matches("[]"))).count() > 1;
         let below = format!("{}[]", d.path);
         let prefix_equal = !done.diffs.iter().any(|x| x.path.starts_with(&below));
         if embedded && prefix_equal && END_OF_DATA_ARRAYS.contains(&last) && (last != "glyph_id_array" || d.path.contains(".Format4.") || d.path.contains(".Format10.")) {
@@ -657,7 +659,10 @@ fn harvest<'a>(ctx: &mut Ctx, entries: &'a [Entry]) -> Harvest<'a> {
     h
 }
 
-pub fn run(ctx: &mut Ctx, _args: &Args) {
+pub fn run(ctx: &mut Ctx, args: &Args) {
+    // debugging aids: run only one half of the workload
+    let only_special = args.extra.iter().any(|a| a == "--only-special");
+    let only_main = args.extra.iter().any(|a| a == "--only-main");
     ctx.policy = PanicPolicy::Any;
     ctx.rule = "a value that passes validate() and whose compiled bytes are non-empty; digest = fnv(type name ++ compiled bytes)".into();
     ctx.assumptions = vec![
@@ -666,6 +671,10 @@ pub fn run(ctx: &mut Ctx, _args: &Args) {
         "a difference between written and re-read value counts as a legitimate normalisation only if listed in explain() with a reason established from the writer/reader code; everything else is a violation".into(),
     ];
     let entries = registry::registry();
+    if only_special {
+        special::run_special(ctx);
+        return;
+    }
     let t0 = ctx.elapsed_s();
     let mut h = harvest(ctx, &entries);
     ctx.extra.insert("harvest_s".into(), json!(ctx.elapsed_s() - t0));
@@ -738,7 +747,9 @@ pub fn run(ctx: &mut Ctx, _args: &Args) {
     }
     ctx.extra.insert("work_items".into(), json!(item));
 
-    special::run_special(ctx);
+    if !only_main {
+        special::run_special(ctx);
+    }
 
     // per-type evidence
     let mut per_type: BTreeMap<String, Value> = BTreeMap::new();
